@@ -105,15 +105,15 @@ theorem C03_exactly_once (base : Nat) (h : History) (i : Nat) (c : Cfg) (p : Poo
   obtain ⟨_, a, b, c'⟩ := hl.fin hf rfl
   exact ⟨a, b, c'⟩
 
-/-- **nothing is ever lost** in a history without `flush` / `gather_and_close` / `until_closed`, whatever the mix of
+/-- **nothing is ever lost** in a history without `gather_and_close` (any number of concurrent `flush` calls included), whatever the mix of
 normal returns, exceptions, cancellations (of tasks, groups, everything), sync and coroutine callbacks, gates and
 resizes: no wrapper ever misses its registry entry -/
-theorem C03_never_lost (base : Nat) (h : History) (hn : ∀ x ∈ h, x.admits noAsync = true) (i : Nat) (c : Cfg) (p : Pool)
+theorem C03_never_lost (base : Nat) (h : History) (hn : ∀ x ∈ h, x.admits noGac = true) (i : Nat) (c : Cfg) (p : Pool)
     (hc : ((World.init base).run h).cfgs[i]? = some c) (hp : ((World.init base).run h).pools[i]? = some p) :
     p.lost = false := (strictAll base h hn i c p hc hp).1
 
 /-- hence, unconditionally for those histories: **exactly once** -/
-theorem C03_exactly_once_all (base : Nat) (h : History) (hn : ∀ x ∈ h, x.admits noAsync = true) (i : Nat) (c : Cfg)
+theorem C03_exactly_once_all (base : Nat) (h : History) (hn : ∀ x ∈ h, x.admits noGac = true) (i : Nat) (c : Cfg)
     (p : Pool) (hc : ((World.init base).run h).cfgs[i]? = some c) (hp : ((World.init base).run h).pools[i]? = some p)
     (t : Nat) (tk : PTask) (ht : p.tasks[t]? = some tk) (hf : tk.phase = .finished) :
     tk.nEC = (if tk.endCb = .none then 0 else 1) ∧
@@ -123,7 +123,7 @@ theorem C03_exactly_once_all (base : Nat) (h : History) (hn : ∀ x ∈ h, x.adm
 
 /-- … and **the three registries are complete**: a task that has not handed back its slot counts as running or as
 cancelled -/
-theorem C03_complete (base : Nat) (h : History) (hn : ∀ x ∈ h, x.admits noAsync = true) (i : Nat) (c : Cfg) (p : Pool)
+theorem C03_complete (base : Nat) (h : History) (hn : ∀ x ∈ h, x.admits noGac = true) (i : Nat) (c : Cfg) (p : Pool)
     (hc : ((World.init base).run h).cfgs[i]? = some c) (hp : ((World.init base).run h).pools[i]? = some p)
     (t : Nat) (tk : PTask) (ht : p.tasks[t]? = some tk) (hrel : tk.released = false) :
     t ∈ p.running ∨ t ∈ p.cancelledR :=
